@@ -2154,6 +2154,25 @@ class PyCdlib:
                             ino.linked_records.append((next_entry, False))
                             next_entry.inode = ino
 
+    def _open_fp_checked(self, fp):
+        # type: (IO) -> None
+        """
+        An internal method to open an existing ISO for inspection and
+        modification, reporting a damaged or truncated ISO as such.
+
+        Parameters:
+         fp - The file object containing the ISO to open up.
+        Returns:
+         Nothing.
+        """
+        try:
+            self._open_fp(fp)
+        except (struct.error, IndexError, KeyError, ValueError) as err:
+            # These are what decoding damaged or truncated structures ends up
+            # raising (ValueError includes UnicodeDecodeError); the ISO is
+            # invalid, so say so.
+            raise pycdlibexception.PyCdlibInvalidISO('Malformed ISO: %s' % (str(err)))
+
     def _open_fp(self, fp):
         # type: (IO) -> None
         """
@@ -4068,7 +4087,7 @@ class PyCdlib:
         fp = open(filename, mode)  # pylint: disable=consider-using-with,unspecified-encoding
         self._managing_fp = True
         try:
-            self._open_fp(fp)
+            self._open_fp_checked(fp)
         except Exception:
             fp.close()
             raise
@@ -4090,7 +4109,7 @@ class PyCdlib:
         if self._initialized:
             raise pycdlibexception.PyCdlibInvalidInput('This object already has an ISO; either close it or create a new object')
 
-        self._open_fp(fp)
+        self._open_fp_checked(fp)
 
     def get_file_from_iso(self, local_path, **kwargs):
         # type: (str, Union[str, int]) -> None
